@@ -475,7 +475,22 @@ class FnTr:
             first, others = test.values[0], test.values[1:]
             more = others[0] if len(others) == 1 else ast.BoolOp(op=ast.Or(), values=others)
             return self.branch(first, then_k, lambda tr: tr.branch(more, then_k, else_k))
+        if isinstance(test, ast.Compare) and len(test.ops) == 1 and isinstance(test.ops[0], (ast.Is, ast.IsNot)):
+            st = self.static_test(test)         # `x is None` on a value already narrowed (or declared) non-optional
+            if st is not None:
+                return (then_k if st else else_k)(self)
         opt = self.optional_test(test)
+        if opt is not None and not isinstance(test, ast.Compare) and opt[0].typ[4:] not in self.u.hooks.get('always_truthy', ()) \
+                and 'truth' in self.u.hooks:
+            # plain truthiness of an Optional whose value can itself be falsy (`if self.z:` with z = 0.0)
+            v, _pos = opt
+            name = self.gensym('d')
+            c = self.truth(Val(name, v.typ[4:]))
+            t_some, t_falsy, t_none = self.sub(), self.sub(), self.sub()
+            t_some.fresh = t_falsy.fresh = t_none.fresh = self.fresh
+            t_some.narrow[v.path] = t_falsy.narrow[v.path] = Val(name, v.typ[4:], path=v.path)
+            some_txt = f'if {c} then\n{_indent(then_k(t_some))}\nelse\n{_indent(else_k(t_falsy))}'
+            return self.wrap(f'match {v.text} with\n| some {name} =>\n{_indent(some_txt)}\n| none =>\n{_indent(else_k(t_none))}')
         if opt is not None:
             v, present_is_true = opt
             name = self.gensym('d')
